@@ -129,6 +129,9 @@ def _damage(text, j):
     return text[:pos] + bytes((ch,)) + text[pos + 1:], 'replace@%d' % pos
 
 
+GOOD = '({1,2,3,4,5,({"a","b",(["k":({6,7,}),]),}),"z",})'
+
+
 def with_fault(plan, k, info=None):
     q = plan.copy()
     j = int(q.opts()['c16_cycle'])
@@ -141,6 +144,7 @@ def with_fault(plan, k, info=None):
         text = bytes.fromhex(info['textB']) if info.get('textB') else b''
         dmg, what = _damage(text, k - 10000)
         q.cycles.append(['writefile svd/d.o %s' % enc(dmg), send(0, 'do call /sv restd /svd/d\r\n')])
+        q.cycles.append([send(0, 'do call /sv rvraw %s\r\n' % GOOD)])     # a good text restored right after the damaged one
         q.idle(1)
         q.opt('c16_fault', 'file:' + what)
         return q
@@ -158,6 +162,7 @@ def with_fault(plan, k, info=None):
         dmg, what = _damage(text, min(n, 300) + (j - per // 2) * 37)
     if len(dmg) > 900: dmg = dmg[:900]
     q.cycles.append([send(0, 'do call /sv rv %s\r\n' % (dmg.hex() or '20'))])
+    q.cycles.append([send(0, 'do call /sv rvraw %s\r\n' % GOOD)])     # a good text restored right after the damaged one
     q.idle(1)
     q.opt('c16_fault', 'value:%d:%s' % (idx, what))
     return q
@@ -257,6 +262,9 @@ def check_point(plan, res, info):
         tag = 'RESTD' if f.startswith('file:') else 'RV'
         if not _recs(res, tag):
             v.append(Violation(PROP, 'robust', 'restoring damaged text (%s) neither returned nor raised an LPC error' % f, PROP + '/robust/no-outcome'))
+        good = _recs(res, 'RVRAW')
+        if good and good[-1] != 'RVRAW ok array ' + GOOD:
+            v.append(Violation(PROP, 'robust', 'a good text restored right after damaged text (%s) came back as %r' % (f, good[-1][:160]), PROP + '/robust/next-restore-affected'))
     return v
 
 
